@@ -100,6 +100,12 @@ func (mgr *bindingManager) create(addr net.Addr) *binding {
 	mgr.mutex.Lock()
 	defer mgr.mutex.Unlock()
 
+	// Two writers may both have missed the binding in findByAddr: the peer
+	// keeps the one binding (and channel number) that was created first.
+	if existing, ok := mgr.addrMap[addr.String()]; ok {
+		return existing
+	}
+
 	b := &binding{
 		number:       mgr.assignChannelNumber(),
 		addr:         addr,
